@@ -1,6 +1,9 @@
 SPEC = {
     "coq_targets": ["Findings/CacheConc.vo"],
     "runners": [
+        {"kind": "c08stress", "harness": "c08conc", "name": "famS", "family": "S",
+         "corr": "scripted sequential-then-concurrent cases on the real FifoMapCache (-race), family S: geometry-preserving Resizes / Clear, then Sets of new keys, Sweep, Get, a concurrent phase: must be clean",
+         "rule": "each evaluation = one deterministic script on a fresh real FifoMapCache under the race detector: sequential Sets, then Resize to the same capacity again / to another capacity with the same geometry (10->11, 17->18, 26->27->26, 37->38->37->38 under the default calculator) / a geometry change and back / Clear / nothing, then on the same goroutine Set of a new key, Sweep, Get, then 2-4 writers on distinct new keys + a sweeper + a reader released together, join, Sweep, the views, the same Resize again, Set, Sweep, cancel. Monitors: every call returns (stall watchdog: a call outstanding for >= 20s and >= 300 watchdog samples, re-confirmed after 3s, is reported as deadlock with the script, the calls that never returned and all goroutine stacks), no panic, no race report (nothing runs concurrently with Resize/Clear and no key has two writers, so K1/K3 do not apply), single-writer keys hold the last value or are absent, with geometry-preserving Resizes every key within Capacity() is present, no duplicate, ticker gone after cancel. Distinct by (shape, sizes); all count as non-trivial (each has a concurrent phase)."},
         {"kind": "c08stress", "harness": "c08conc", "name": "famA", "family": "A",
          "corr": "free-running -race stress of FifoMapCache, family A (no Clear/Resize, one writer per key): must be clean",
          "rule": "each evaluation = one free-running round on a fresh real FifoMapCache under the race detector (GOMAXPROCS 16): writers on disjoint keys released by a start barrier, readers (Get/Contains/Keys/Values/Len/Capacity), explicit sweepers, the cache's own ticker at 50-1000us; checked by the Go-side monitors of Props/C08.v: no panic/hang/race report, every value read was Set for that key, distinct keys within Capacity() all present with the last value, single-writer keys hold the last value or are absent, no duplicate in Keys(), quiescent views agree, ticker goroutine gone after cancel. Rounds differ by seed-derived shape (distinct by round seed); non-trivial = two writers were demonstrably active at the same time (overlapping monotonic-clock intervals)."},
@@ -18,10 +21,10 @@ SPEC = {
                     "C08 is claimed PARTIALLY: the full statement is refuted by K1 (race with Clear/Resize) and K3 (duplicate key after two concurrent Sets of the same new key); see Props/C08.v C08_full_statement"],
 }
 META = {
-  "text": "PARTIAL. Coq theorems (Props/C08.v) over an interleaving model of FifoMapCache decomposed into the code's atomic sections, for EVERY schedule: no panic; every (k,v) in any partition was the argument of a Set k v (so every Get result was set for that key or is zero); after cancel the ticker goroutine can only exit (after at most one more sweep); after fix F15, Sets of pairwise distinct keys within P*C never cause an eviction and all keys are present at the end; lockset race freedom for schedules without Clear/Resize (over the hand-written footprints, which are proved to agree with the lock skeleton REGENERATED from storage/fifoMapCache.go on every run, and directly over that skeleton: C08_partial_race_free_core_generated; K1 is derived from the source: every offending pair has Clear/Resize as the unprotected writer and an unlocked reader on the other side); and running calls one at a time is exactly the sequential model Model/Cache.v (projection theorems). The full statement is refuted in the same file by explicit schedules (K3 duplicate key, K1 race with Clear/Resize), which the -race stress harness classifies as known findings while reporting every other failure.",
+  "text": "PARTIAL. Coq theorems (Props/C08.v) over an interleaving model of FifoMapCache decomposed into the code's atomic sections, for EVERY schedule: no panic; every (k,v) in any partition was the argument of a Set k v (so every Get result was set for that key or is zero); after cancel the ticker goroutine can only exit (after at most one more sweep); after fix F15, Sets of pairwise distinct keys within P*C never cause an eviction and all keys are present at the end; lockset race freedom for schedules without Clear/Resize (over the hand-written footprints, which are proved to agree with the lock skeleton REGENERATED from storage/fifoMapCache.go on every run, and directly over that skeleton: C08_partial_race_free_core_generated; K1 is derived from the source: every offending pair has Clear/Resize as the unprotected writer and an unlocked reader on the other side); and running calls one at a time is exactly the sequential model Model/Cache.v (projection theorems). The full statement is refuted in the same file by explicit schedules (K3 duplicate key, K1 race with Clear/Resize), which the -race stress harness classifies as known findings while reporting every other failure; a stall watchdog turns a call that never returns into a concrete deadlock report (script/round, outstanding calls, goroutine stacks), and scripted sequential-then-concurrent cases (family S: geometry-preserving Resizes, Clear, then Sets/Sweep/Get and a concurrent phase) must be clean.",
   "design_ref": "DESIGN.md section 7, C08",
   "note": "Trusted: Coq kernel, the hand-written concurrent model (atomicity structure validated by the stress harness and by the sequential correspondence), mutex/context/ticker contracts, GenericStack/SafeMap operations as atomic steps, DRF-SC. Known findings K1, K3 are not fixed (need a re-design of the cache's locking).",
-  "technique": "Coq inductive invariants over all interleavings of an atomic-section model + vm_compute refutation witnesses + two-family -race stress with history-based classification",
+  "technique": "Coq inductive invariants over all interleavings of an atomic-section model + vm_compute refutation witnesses + scripted cases and two-family -race stress with history-based classification and a deadlock watchdog",
 }
 KNOWN = [
  {"property": "C08", "id": "F15", "status": "fixed", "commit": "1d668f0",
@@ -113,16 +116,21 @@ def run_c08stress(chk, pid, runner, tier, seed, workdir, log, only_key):
     d = json.load(open(rp))
     res.update({"evaluations": d.get("rounds", 0), "distinct_nontrivial": d.get("contended_rounds", 0),
                 "rule": runner.get("rule", "") + " Scope this run: " + d.get("scope", ""),
-                "samples": d.get("samples", [])[:2],
+                "samples": (d.get("samples") or [])[:2],
                 "histogram": dict(d.get("failure_kinds", {}), race_reports=len(races), **{"rounds " + k: v for k, v in d.get("per_scenario", {}).items()}),
                 "extra": {"c08conc_%s_counts" % fam: {k: v for k, v in d.items() if isinstance(v, (int, float, str)) and k not in ("scope",)}}})
     seen = set()
     for fl in (d.get("failures") or []):
         sig = "%s:%s:%s:%s" % (fam, fl["scenario"], fl["kind"], fl.get("class", ""))
+        if fl["kind"] == "deadlock":
+            # "completes without deadlock": a call that never returned; identified by the innermost library frames
+            # of the goroutines blocked inside the library (function names, no line numbers)
+            sig = "deadlock:%s [family %s, %s]" % (fl.get("class", ""), fam, fl["scenario"])
         if sig in seen:
             continue
         seen.add(sig)
-        res["failures"].append({"kind": "monitor", "theorem_or_correspondence": corr, "detail": fl["msg"],
+        extra = {k: fl[k] for k in ("outstanding", "goroutine_stacks", "goroutine_stacks_file") if fl.get(k)}
+        res["failures"].append({"kind": "monitor", "theorem_or_correspondence": corr, "detail": fl["msg"], **extra,
                                 "failing_clause": fl["kind"], "diagnosis": fl.get("class", ""), "round": fl.get("round"),
                                 "replay_hint": "harness/cmd/c08conc -family %s -only %s -seed %s (round_seed in 'round' reruns the same shape; the schedule itself is up to the Go scheduler)" % (fam, fl["scenario"], seed),
                                 "signature": sig, "found_failing_input": True, "stress_seed": seed})
